@@ -102,10 +102,7 @@ theorem createMapped_shape (lhs : Node) (pos : String) (n? : Option Node) (s : S
     left
     simp only at h
     unfold BCtx.noMatchAt at h
-    split at h
-    · cases h; exact ⟨_, rfl⟩
-    · cases h
-    · cases h
+    cases h; exact ⟨_, rfl⟩
   | some n =>
     simp only [bind, Outcome.bind] at h
     cases hc : ctx.castNode (lhs.exprType ctx.env) n with
@@ -117,10 +114,7 @@ theorem createMapped_shape (lhs : Node) (pos : String) (n? : Option Node) (s : S
         left
         simp only at h
         unfold BCtx.noMatchAt at h
-        split at h
-        · cases h; exact ⟨_, rfl⟩
-        · cases h
-        · cases h
+        cases h; exact ⟨_, rfl⟩
       | some c =>
         right
         simp only [pure] at h
